@@ -12,6 +12,7 @@
 -/
 import Absnfs.FsLemmas
 import Absnfs.BytesComm
+import Absnfs.FsWriteComm
 import Gen.Facts
 open Absnfs Absnfs.Fs
 
@@ -70,6 +71,20 @@ theorem written_range_reads_back (d : Bytes) (o : Nat) (w : Bytes) (hw : w ≠ [
 theorem same_range_last_writer_wins (d : Bytes) (o : Nat) (w1 w2 : Bytes) (h1 : w1 ≠ []) (h2 : w2 ≠ [])
     (hl : w1.length = w2.length) : writeBytes (writeBytes d o w1) o w2 = writeBytes d o w2 :=
   writeBytes_overwrite d o w1 w2 h1 h2 hl
+
+/-- the same at the level of the backing filesystem: two WriteAt calls on non-overlapping ranges of one file,
+    through whichever paths resolve to it (p, p' — e.g. the name and a symbolic link to it), both within the size
+    limit, succeed in either order with full counts and leave one and the same filesystem `fin`, whose file
+    holds both payloads -/
+theorem concurrent_disjoint_writes_one_outcome {fs : T} (hwf : WF fs) {p p' q : Path} {e : Entry}
+    (hf : follow fs p = (q, .ok e)) (hf' : follow fs p' = (q, .ok e)) (hk : e.kind = .file)
+    (o1 o2 : Nat) (w1 w2 : Bytes) (h1 : w1 ≠ []) (h2 : w2 ≠ [])
+    (hs1 : o1 + w1.length ≤ fs.maxSize) (hs2 : o2 + w2.length ≤ fs.maxSize)
+    (hd : o1 + w1.length ≤ o2 ∨ o2 + w2.length ≤ o1) :
+    ∃ fa fb fin, writeAt fs p o1 w1 = .ok (fa, w1.length) ∧ writeAt fa p' o2 w2 = .ok (fin, w2.length) ∧
+                 writeAt fs p' o2 w2 = .ok (fb, w2.length) ∧ writeAt fb p o1 w1 = .ok (fin, w1.length) ∧
+                 get fin q = some { e with data := writeBytes (writeBytes e.data o1 w1) o2 w2 } :=
+  writeAt_comm_disjoint hwf hf hf' hk o1 o2 w1 w2 h1 h2 hs1 hs2 hd
 
 /-- non-vacuity: three writers of 2 bytes each at 0, 2, 4 into an empty file, applied in the order 2, 0, 1 -/
 example : writeAll [] [(4, [99, 99]), (0, [97, 97]), (2, [98, 98])] = [97, 97, 98, 98, 99, 99] := by decide
